@@ -2,9 +2,15 @@ package checks
 
 import (
 	"fmt"
+
+	validate "buf.build/gen/go/bufbuild/protovalidate/protocolbuffers/go/buf/validate"
+	"google.golang.org/protobuf/encoding/protojson"
+	"google.golang.org/protobuf/proto"
+	"google.golang.org/protobuf/types/dynamicpb"
 	"strconv"
 	"strings"
 	"sync"
+	"time"
 
 	"google.golang.org/protobuf/reflect/protoreflect"
 	"google.golang.org/protobuf/reflect/protoregistry"
@@ -23,6 +29,14 @@ type mockCase struct {
 	Build    func(pkg string) *spec.File // services named MockSvc…; method Call…
 	Examples map[string][]string         // response json field name -> declared examples (as text)
 	ExKind   map[string]string           // json field name -> kind for parsing
+	// Seq, when set, replaces the 50 identical valid requests: these bodies are sent in order to ONE mock
+	// server over HTTP and to ONE mock object directly (only the answers to valid ones are judged)
+	Seq []mockReq
+}
+
+type mockReq struct {
+	JSON  string
+	Valid bool
 }
 
 func mockFile(pkg string, respFields []*spec.Field, extra ...*spec.Message) *spec.File {
@@ -177,6 +191,63 @@ func mockCatalogue() []mockCase {
 			{Name: "UpdateNote", In: "." + pkg + ".Note", Out: "." + pkg + ".Note", HTTP: &spec.HTTP{Path: "/update", Verb: 2}}}}}
 		return f
 	}})
+	// the same short message name in different scopes, same field names, different examples
+	exs := func(v ...string) func(a *spec.Ann) { return func(a *spec.Ann) { a.Examples = v } }
+	out = append(out, mockCase{ID: "mock/examples/same-short-name/nested-in-two-parents", Examples: map[string][]string{"mine.id": {"m1", "m2"}, "other.item.id": {"o1"}, "others.*.item.id": {"o1"}},
+		ExKind: map[string]string{"mine.id": "string", "other.item.id": "string", "others.*.item.id": "string"}, Build: func(pkg string) *spec.File {
+			f := mockFile(pkg, []*spec.Field{spec.FM("mine", 1, "."+pkg+".MResp.Item"), spec.FM("other", 2, "."+pkg+".MOther"), spec.FM("others", 3, "."+pkg+".MOther").Rep()},
+				&spec.Message{Name: "MOther", Nested: []*spec.Message{{Name: "Item", Fields: []*spec.Field{spec.F("id", 1, spec.String).With(exs("o1")), spec.F("label", 2, spec.String)}}}, Fields: []*spec.Field{spec.FM("item", 1, "."+pkg+".MOther.Item")}})
+			f.Messages[1].Nested = []*spec.Message{{Name: "Item", Fields: []*spec.Field{spec.F("id", 1, spec.String).With(exs("m1", "m2")), spec.F("label", 2, spec.String)}}}
+			return f
+		}})
+	out = append(out, mockCase{ID: "mock/examples/same-short-name/top-and-nested", Examples: map[string][]string{"top.id": {"t1"}, "inner.id": {"n1", "n2"}}, ExKind: map[string]string{"top.id": "string", "inner.id": "string"}, Build: func(pkg string) *spec.File {
+		f := mockFile(pkg, []*spec.Field{spec.FM("top", 1, "."+pkg+".Item"), spec.FM("inner", 2, "."+pkg+".MResp.Item")}, &spec.Message{Name: "Item", Fields: []*spec.Field{spec.F("id", 1, spec.String).With(exs("t1"))}})
+		f.Messages[1].Nested = []*spec.Message{{Name: "Item", Fields: []*spec.Field{spec.F("id", 1, spec.String).With(exs("n1", "n2"))}}}
+		return f
+	}})
+	// examples on fields that also carry validation rules which every example satisfies (lengths count characters)
+	strRules := func(r *validate.StringRules) *validate.FieldRules {
+		return &validate.FieldRules{Type: &validate.FieldRules_String_{String_: r}}
+	}
+	for _, rc := range []struct {
+		id    string
+		rules *validate.FieldRules
+		ex    []string
+	}{
+		{"ascii/max_len", strRules(&validate.StringRules{MaxLen: proto.Uint64(5)}), []string{"abcde", "ab"}},
+		{"non-ascii/max_len", strRules(&validate.StringRules{MaxLen: proto.Uint64(2)}), []string{"€", "zł", "日本"}},
+		{"non-ascii/max_len-longer", strRules(&validate.StringRules{MaxLen: proto.Uint64(14)}), []string{"Müller & Söhne", "Ünïcödé strïng"}},
+		{"astral/max_len", strRules(&validate.StringRules{MaxLen: proto.Uint64(3)}), []string{"😀😀😀", "a😀"}},
+		{"non-ascii/min_len", strRules(&validate.StringRules{MinLen: proto.Uint64(2)}), []string{"€€", "日本語"}},
+		{"non-ascii/len", strRules(&validate.StringRules{Len: proto.Uint64(3)}), []string{"日本語", "añb"}},
+		{"non-ascii/max_bytes", strRules(&validate.StringRules{MaxBytes: proto.Uint64(6)}), []string{"€€", "abc"}},
+		{"pattern", strRules(&validate.StringRules{Pattern: proto.String("^[a-z]+-[0-9]+$")}), []string{"ab-12", "x-0"}},
+		{"in", strRules(&validate.StringRules{In: []string{"red", "grün"}}), []string{"red", "grün"}},
+	} {
+		rc := rc
+		out = append(out, mockCase{ID: "mock/examples/string-rules/" + rc.id, Examples: map[string][]string{"label": rc.ex}, ExKind: map[string]string{"label": "string"}, Build: func(pkg string) *spec.File {
+			return mockFile(pkg, []*spec.Field{spec.F("label", 1, spec.String).With(func(a *spec.Ann) { a.Examples = rc.ex; a.Rules = rc.rules }), spec.F("name", 2, spec.String)})
+		}})
+	}
+	out = append(out, mockCase{ID: "mock/examples/int-rules/range", Examples: map[string][]string{"level": {"3", "9"}}, ExKind: map[string]string{"level": "int"}, Build: func(pkg string) *spec.File {
+		r := &validate.FieldRules{Type: &validate.FieldRules_Int64{Int64: &validate.Int64Rules{GreaterThan: &validate.Int64Rules_Gte{Gte: 3}, LessThan: &validate.Int64Rules_Lte{Lte: 9}}}}
+		return mockFile(pkg, []*spec.Field{spec.F("level", 1, spec.Int64).With(func(a *spec.Ann) { a.Examples = []string{"3", "9"}; a.Rules = r })})
+	}})
+	// a request type with rules: rejected requests followed by valid ones on the same mock
+	out = append(out, mockCase{ID: "mock/request-rules/invalid-then-valid", Examples: map[string][]string{"title": {"t1", "t2"}}, ExKind: map[string]string{"title": "string"},
+		Seq: []mockReq{{`{"id":"a"}`, false}, {`{"id":"abcd"}`, true}, {`{"id":""}`, false}, {`{"id":"wxyz"}`, true}, {`{"id":"abcd"}`, true}},
+		Build: func(pkg string) *spec.File {
+			f := mockFile(pkg, []*spec.Field{spec.F("title", 1, spec.String).With(exs("t1", "t2")), spec.F("name", 2, spec.String)})
+			f.Messages[0].Fields[0].Ann.Rules = strRules(&validate.StringRules{MinLen: proto.Uint64(3)})
+			return f
+		}})
+	out = append(out, mockCase{ID: "mock/request-rules/valid-then-invalid-then-valid", Examples: map[string][]string{"title": {"t1", "t2"}}, ExKind: map[string]string{"title": "string"},
+		Seq: []mockReq{{`{"id":"abcd"}`, true}, {`{"id":"a"}`, false}, {`{"id":"abcd"}`, true}, {`{"id":"zzzz"}`, true}},
+		Build: func(pkg string) *spec.File {
+			f := mockFile(pkg, []*spec.Field{spec.F("title", 1, spec.String).With(exs("t1", "t2")), spec.F("name", 2, spec.String)})
+			f.Messages[0].Fields[0].Ann.Rules = strRules(&validate.StringRules{MinLen: proto.Uint64(3)})
+			return f
+		}})
 	return out
 }
 
@@ -328,9 +399,31 @@ func c20(c *Ctx) {
 				}
 				seen := map[string]map[string]bool{}
 				okAll := true
-				for n := 0; n < 50; n++ {
-					resp, err := rawHTTP(verb, gs.URL, target, [][2]string{{"Content-Type", "application/json"}}, body)
+				reqSeq := make([]mockReq, 50)
+				for i := range reqSeq {
+					reqSeq[i] = mockReq{string(body), true}
+				}
+				if u.mc.Seq != nil && strings.HasSuffix(m.In, ".MReq") && verb == "POST" {
+					reqSeq = u.mc.Seq
+				}
+				for n, rq := range reqSeq {
+					var rqBody []byte
+					if body != nil {
+						rqBody = []byte(rq.JSON)
+					}
+					resp, err := rawHTTP(verb, gs.URL, target, [][2]string{{"Content-Type", "application/json"}}, rqBody)
 					c.R.Eval(1)
+					if err == nil && !rq.Valid {
+						// nothing is promised for a request the rules reject, except that the server survives it
+						evs, _ := syncEvents(ch)
+						for _, e := range evs {
+							if e.Str("ev") == "panic" {
+								c.R.Violate(caseID, "panic", e.Str("value"), map[string]any{"proto": protoText, "stack": e.Str("stack")})
+								okAll = false
+							}
+						}
+						continue
+					}
 					if err != nil {
 						c.R.Violate(caseID, "mock-no-response", err.Error(), map[string]any{"proto": protoText})
 						okAll = false
@@ -385,6 +478,66 @@ func c20(c *Ctx) {
 						}
 					}
 					c.R.Count("example_fields_checked", 1)
+				}
+				// the same requests to ONE mock object called directly, the way Go code embeds the mock
+				if verb == "POST" {
+					inMD, outMD := msgDesc(u.reg, strings.TrimPrefix(m.In, ".")), msgDesc(u.reg, strings.TrimPrefix(m.Out, "."))
+					direct := reqSeq
+					if len(direct) > 6 {
+						direct = direct[:6]
+					}
+					for n, rq := range direct {
+						rm := dynamicpb.NewMessage(inMD)
+						if err := protojson.Unmarshal([]byte(rq.JSON), rm); err != nil {
+							c.R.Harness("c20 direct request does not parse: " + err.Error())
+							break
+						}
+						_, ev, err := ch.Do(map[string]any{"op": "mockdirect", "id": newID("md"), "client": u.f.Package + "." + svc.Name, "reuse": caseID + "/" + m.Name, "rpc": m.Name, "req_type": strings.TrimPrefix(m.In, "."), "req": b64(wire(rm))}, 30*time.Second, "mock_out")
+						c.R.Eval(1)
+						if err != nil {
+							c.R.Inconclusive(caseID, "lab-child:"+err.Error())
+							break
+						}
+						if h := ev.Str("harness"); h != "" {
+							c.R.Harness("mockdirect: " + h)
+							break
+						}
+						rp := map[string]any{"proto": protoText, "rpc": m.Name, "request": rq.JSON, "call_index": n, "sequence": direct, "event": ev}
+						if pn := ev.Str("panic"); pn != "" {
+							c.R.Violate(caseID, "panic", "direct call: "+firstLines(pn, 1), rp)
+							break
+						}
+						if !rq.Valid {
+							continue
+						}
+						if ev["err"] != nil || ev["has_resp"] != true {
+							c.R.Violate(caseID, "mock-direct-call-failed", "valid request answered with an error or no response", rp)
+							break
+						}
+						om := dynamicpb.NewMessage(outMD)
+						if err := proto.Unmarshal(unb64(ev.Str("resp")), om); err != nil {
+							c.R.Harness("mockdirect response: " + err.Error())
+							break
+						}
+						js, _ := protojson.Marshal(om)
+						t, _ := jsonmap.Parse(js)
+						for path, exs := range u.mc.Examples {
+							kind := u.mc.ExKind[path]
+							if strings.HasSuffix(kind, "-unparsable") {
+								continue
+							}
+							allowed := map[string]bool{}
+							for _, e := range exs {
+								allowed[normExample(e, kind)] = true
+							}
+							for _, v := range lookupPath(t, path) {
+								if !allowed[normExample(fmt.Sprint(v), kind)] {
+									c.R.Violate(caseID, "value-outside-declared-examples", kind, map[string]any{"proto": protoText, "field": path, "declared": exs, "observed": fmt.Sprint(v), "via": "direct call on the mock object"})
+								}
+							}
+						}
+						c.R.Count("direct_mock_calls_judged", 1)
+					}
 				}
 			}
 			gs.Stop()
